@@ -15,7 +15,7 @@ POOLS = {
         'ID': ['a', 'b', 't1', 'col1', 'x1', 'int1', 'pred', '`a b`', '`select`', 'T2', '`in$stock`', '`select$1`',
                '`1abc`', '`x$y`', '$a', '`a-b`', '`from`'],
         'INTEGER': ['0', '1', '2', '10'],
-        'FLOAT': ['1.5', '0.25'],
+        'FLOAT': ['1.5', '0.25', '0.000012345678901234', '0.00000000000000000012', '123456789.125'],
         'QUOTE_STRING': ["'x'", "'a b'", "''", "'2020-01-01'"],
         'DQUOTE_STRING': ['"x"', '"a b"'],
         'VARIABLE': ['@v'],
